@@ -989,6 +989,28 @@ impl<'a, R: CharRead> Lexer<'a, R> {
         }
     }
 
+    /// Consumes the input up to and including the next end token
+    /// (or up to the end of the input), ignoring lexical errors.
+    pub(crate) fn skip_to_end_token(&mut self) {
+        loop {
+            let (line, column) = (self.location.line, self.location.column);
+
+            match self.next_token() {
+                Ok(token) if token.is_end() => break,
+                Ok(_) => {}
+                Err(e) if e.is_unexpected_eof() => break,
+                Err(_) => {
+                    // an error that consumed nothing must not stall the scan.
+                    if (line, column) == (self.location.line, self.location.column)
+                        && self.read_char().is_err()
+                    {
+                        break;
+                    }
+                }
+            }
+        }
+    }
+
     pub fn next_token(&mut self) -> Result<Token, ParserError> {
         let layout_inserted = self.scan_for_layout()?;
         let cr = self.lookahead_char();
